@@ -18,7 +18,7 @@ CHECKS = {
 			'Python and the emitted C++ return different values or differ in raising. unsat = equal for all such inputs; sat is reported only if the compiled C++ really differs from CPython.',
 		'design_ref': 'DESIGN.md section 2, C01',
 		'note': 'Programs are a bounded enumeration of shapes; inputs are a solver verdict. Loops unrolled 6 times with unwinding assumption. Outside: strings, dicts, tuples, lists of non-int / slices / list methods other than append, classes, enums, closures, exceptions with handlers, floats. '
-			'Trusted: z3 5.1, tv/sem.py + tv/fronts.py C++ subset semantics (validated each run against g++ on solver-chosen witnesses), CPython ast, g++ for replays. Open findings listed in known_findings.json: comparison chains, negative-index, enumerate-continue, len-unsigned, foreach-reference (a difference inside a listed class region is re-solved with the region excluded; what remains is reported).',
+			'Trusted: z3 5.1, tv/sem.py + tv/fronts.py C++ subset semantics (validated each run against g++ on solver-chosen witnesses), CPython ast, g++ for replays. Open findings listed in known_findings.json: comparison chains, boolop-value, negative-index, enumerate-continue, len-unsigned, foreach-reference (a difference inside a listed class region is re-solved with the region excluded; what remains is reported).',
 	},
 	'C05': {
 		'category': 'model_checking',
@@ -46,9 +46,9 @@ CHECKS = {
 		'technique': 'bounded symbolic case analysis (CrossHair + z3) of the error-normalisation code with a parser stub raising arbitrary exceptions and handlers raising arbitrary exceptions; closed (enumerated) whole-pipeline obligations over two generated program families',
 		'text': 'Normalisation kernels: whatever exception the (stubbed) Lark parser raises - on disk or in memory - SyntaxParserOfLark lets only Errors.Syntax escape; whatever a Procedure handler raises at any of the first six handler calls of a real tree, '
 			'an Errors.Error escapes, ErrorRender renders it, and the procedure is reusable afterwards. Whole pipeline (real Lark, every preprocessor, Py2Cpp, ErrorRender), enumerated: 16 ill-typed program templates x 24 type annotations x 37 expressions, and every single-token '
-			'mutation (delete, duplicate, swap, replace by 12 / 31 tokens) of three valid programs: each run succeeds or raises an Errors.Error that renders.',
+			'mutation (delete, duplicate, swap, replace by 12 / 31 tokens) of three valid programs; 453 ill-typed programs as on-disk modules with the cache enabled (two runs); 26 deeply nested / very long inputs; every history [x, y, valid] over 9 inputs through the real Interactive.run: each run succeeds or raises an Errors.Error that renders, and the interactive loop keeps reading.',
 		'design_ref': 'DESIGN.md section 2, C07',
-		'note': 'The two pipeline families are finite enumerations evaluated directly (no solver decides them; under CrossHair the same enumeration costs 2.7x more and decides nothing more). Inputs outside the families, on-disk modules through the whole pipeline and termination are outside. ' + NOTE_COMMON,
+		'note': 'The pipeline families (O4-O8) are finite enumerations evaluated directly (no solver decides them; under CrossHair the same enumeration costs 2.7x more and decides nothing more). Inputs outside the families, on-disk modules through the whole pipeline and termination are outside. ' + NOTE_COMMON,
 	},
 	'C08': {
 		'category': 'model_checking',
